@@ -2,6 +2,8 @@ package main
 
 import (
 	"encoding/json"
+	"go/printer"
+	"reflect"
 	"fmt"
 	"go/ast"
 	"go/token"
@@ -95,6 +97,7 @@ func NewEngine(repo, verif string) (*Engine, error) {
 		base := map[string]Shape{}
 		if json.Unmarshal(data, &base) == nil {
 			e.rebindContracts(base)
+			e.remapLoops(base)
 		}
 	}
 	e.computeEscapes()
@@ -921,6 +924,7 @@ func (e *Engine) resultTypeOf(key string) (types.Type, bool) {
 // callee preconditions, safety side conditions) that no longer discharge mean "the proof needs
 // maintenance", not "the property is violated".
 type Shape struct {
+	LoopSigs []string `json:"loopsigs,omitempty"` // source form of each loop header, in loop-ordinal order
 	Params   []string `json:"params"`
 	Loops    int      `json:"loops"`
 	Closures int      `json:"closures"`
@@ -938,6 +942,7 @@ func (e *Engine) shapeOf(fn *ssa.Function) Shape {
 		sh.FreeVars = append(sh.FreeVars, fv.Name())
 	}
 	sort.Strings(sh.FreeVars)
+	sh.LoopSigs = e.loopSigs(fn, sh.Loops)
 	sh.Params = []string{}
 	for _, p := range fn.Params {
 		sh.Params = append(sh.Params, p.Name())
@@ -1108,4 +1113,129 @@ func (e *Engine) rebindContracts(base map[string]Shape) {
 		}
 	}
 	e.fnByKey = nb
+}
+
+// loopSigs returns the source form of the header of every loop of fn (not of its closures), in the
+// order in which loop ordinals are assigned, or nil if the loops of the syntax tree cannot be put in
+// correspondence with the loops of the SSA form.
+func (e *Engine) loopSigs(fn *ssa.Function, nloops int) []string {
+	syn := fn.Syntax()
+	if syn == nil || nloops == 0 {
+		return nil
+	}
+	var body *ast.BlockStmt
+	switch x := syn.(type) {
+	case *ast.FuncDecl:
+		body = x.Body
+	case *ast.FuncLit:
+		body = x.Body
+	}
+	if body == nil {
+		return nil
+	}
+	var sigs []string
+	str := func(n ast.Node) string {
+		if n == nil || reflect.ValueOf(n).IsNil() {
+			return ""
+		}
+		var sb strings.Builder
+		printer.Fprint(&sb, e.prog.Fset, n)
+		return strings.Join(strings.Fields(sb.String()), " ")
+	}
+	ast.Inspect(body, func(n ast.Node) bool {
+		switch x := n.(type) {
+		case *ast.FuncLit:
+			return false
+		case *ast.RangeStmt:
+			sigs = append(sigs, "range "+str(x.Key)+","+str(x.Value)+" := "+str(x.X))
+		case *ast.ForStmt:
+			sigs = append(sigs, "for "+str(x.Init)+"; "+str(x.Cond)+"; "+str(x.Post))
+		}
+		return true
+	})
+	if len(sigs) != nloops {
+		return nil
+	}
+	return sigs
+}
+
+// remapLoops translates the loop ordinals used in a contract (which are those of the baseline) into the
+// ordinals of the same loops in the current tree, identified by the source form of their headers; a
+// baseline loop without a counterpart gets an ordinal that does not exist (its clauses are then
+// reported as written for different code).
+func (e *Engine) remapLoops(base map[string]Shape) {
+	for key, fc := range e.contracts.funcs {
+		if fc.Assumed {
+			continue
+		}
+		b, ok := base[key]
+		fn := e.fnByKey[key]
+		if !ok || fn == nil || len(fn.Blocks) == 0 || len(b.LoopSigs) == 0 {
+			continue
+		}
+		cur := e.shapeOf(fn)
+		if len(cur.LoopSigs) == 0 {
+			continue
+		}
+		same := len(cur.LoopSigs) == len(b.LoopSigs)
+		for i := 0; same && i < len(b.LoopSigs); i++ {
+			same = b.LoopSigs[i] == cur.LoopSigs[i]
+		}
+		if same {
+			continue
+		}
+		used := map[int]bool{}
+		m := map[int]int{}
+		for i, sig := range b.LoopSigs {
+			m[i+1] = 1000 + i + 1
+			for j, cs := range cur.LoopSigs {
+				if cs == sig && !used[j] {
+					used[j] = true
+					m[i+1] = j + 1
+					break
+				}
+			}
+		}
+		tr := func(n int) int {
+			if n == 0 {
+				return 0
+			}
+			if v, ok := m[n]; ok {
+				return v
+			}
+			return 1000 + n
+		}
+		ninv := map[int][]*Clause{}
+		for n, cls := range fc.LoopInv {
+			ninv[tr(n)] = append(ninv[tr(n)], cls...)
+		}
+		fc.LoopInv = ninv
+		if fc.Unroll != nil {
+			nu := map[int]int{}
+			for n, k := range fc.Unroll {
+				nu[tr(n)] = k
+			}
+			fc.Unroll = nu
+		}
+		for _, t := range fc.Traces {
+			t.Loop = tr(t.Loop)
+		}
+		fc.LoopsRemapped = true
+		fc.LoopName = map[int]int{}
+		for bn, cn := range m {
+			fc.LoopName[cn] = bn
+		}
+	}
+}
+
+// loopLabel: the ordinal under which obligations about a loop are named (the contract's own numbering,
+// so that names are stable when loops are added in front of it).
+func (e *Engine) loopLabel(fn *ssa.Function, ord int) int {
+	if fc := e.contracts.funcs[qualFnName(fn)]; fc != nil && fc.LoopName != nil {
+		if b, ok := fc.LoopName[ord]; ok {
+			return b
+		}
+		return 2000 + ord // a loop the contract does not know
+	}
+	return ord
 }
